@@ -87,7 +87,7 @@ MDrop(i)         == M("Drop",   i, 0, 0, 0, <<>>)       \* remove token i
 MIns(i, j)       == M("Ins",    i, j, 0, 0, <<>>)       \* insert a copy of token i before token j
 MInsNew(j, n, v) == M("InsNew", 0, j, n, v, <<>>)       \* insert n bytes 0xff (abstract value v) before token j
 MInsVal(j, n, v) == M("InsVal", 0, j, n, v, <<>>)       \* insert the n-byte big-endian number v before token j
-MPoint(i, cls)   == M("Point",  i, 0, 0, cls, <<>>)     \* 32-byte token i := an invalid curve point (10 off curve, 11 small order)
+MPoint(i, cls)   == M("Point",  i, 0, 0, cls, <<>>)     \* 32-byte token i := an invalid curve point (10 off curve, 11 small order, 12 mixed order)
 MRepl(i, j, new) == M("Repl",   i, j, 0, 0, new)        \* replace tokens i..j by numeric tokens new = <<<<len, val>>, ...>>
 
 \* drop the last k bytes: whole tokens disappear, the token the cut lands in becomes partial
